@@ -28,14 +28,14 @@ type pomOpt struct {
 	PropKind   int  // 0 none, 1 ${p}, 2 1.${p}, 3 ${p}-jre, 4 ${p}.${q}
 	PropInMgmt bool // the property-versioned dependency lives in dependencyManagement instead of dependencies
 	Shared     bool // a second dependency uses the same property expression
-	Profile    int  // 0 none, 1 profile with own deps/properties/depMgmt, 2 = 1 + the profile shadows property p
+	Profile    int  // 0 none, 1 profile with own deps/properties/depMgmt, 2 = 1 + the profile shadows property p and uses it, 3 = 1 + shadows p without using it
 	Plugin     bool // build/pluginManagement/plugins/plugin/dependencies
 	Parent     int  // 0 none, 1 local parent, 2 local parent + grandparent
 	ParentProp bool // a child (and parent) dependency uses a property defined one level up
 	// cosmetics
 	Comments   bool
 	CDATA      bool
-	PI         bool
+	PI         bool // XML declaration, a processing instruction and a DOCTYPE directive before the root
 	NS         bool
 	NestedAttr bool // <foo xsi:nil="true"/> under a plugin <configuration>
 	VerDecor   bool // comment inside / whitespace around the text of <version> elements
@@ -49,7 +49,7 @@ type pomDoc struct {
 }
 
 func (o pomOpt) valid() bool {
-	if o.PropKind == 0 && (o.PropInMgmt || o.Shared || o.Profile == 2) {
+	if o.PropKind == 0 && (o.PropInMgmt || o.Shared || o.Profile >= 2) {
 		return false
 	}
 	if o.Parent == 0 && o.ParentProp {
@@ -150,6 +150,7 @@ func (w *xw) prolog(o pomOpt) {
 	if o.PI {
 		w.line(`<?xml version="1.0" encoding="UTF-8"?>`)
 		w.line(`<?build-hint keep="yes" <version>1.0</version> ?>`)
+		w.line(`<!DOCTYPE project>`)
 	}
 	if o.Comments {
 		w.line("<!-- generated pom, <version>1.0</version> is mentioned here on purpose -->")
@@ -242,9 +243,11 @@ func (o pomOpt) render() (map[string]string, []string) {
 		w.leaf("id", "prof")
 		fp := [][2]string{{"fp", "1.0"}}
 		fd := []gdep{{g: "org.pf", a: "lit", ver: "1.0"}, {g: "org.pf", a: "own", ver: "${fp}"}}
-		if o.Profile == 2 {
+		if o.Profile >= 2 {
 			_, sp := propTemplate(o.PropKind, "p", "q")
 			fp = append(fp, sp...)
+		}
+		if o.Profile == 2 {
 			fd = append(fd, gdep{g: "org.pf", a: "shadow", ver: tmpl})
 		}
 		w.props(fp, o.Comments, false)
@@ -370,7 +373,7 @@ func genPomDocs(thorough bool) []*pomDoc {
 			for pk := 0; pk <= 4; pk++ {
 				for _, pim := range bools {
 					for _, sh := range bools {
-						for pf := 0; pf <= 2; pf++ {
+						for pf := 0; pf <= 3; pf++ {
 							for _, pl := range bools {
 								add("child", pomOpt{Deps: d, Mgmt: m, PropKind: pk, PropInMgmt: pim, Shared: sh, Profile: pf, Plugin: pl}, subA, rotA)
 							}
@@ -385,7 +388,7 @@ func genPomDocs(thorough bool) []*pomDoc {
 	pfs := []int{0, 1}
 	subB, rotB := 2, 1
 	if thorough {
-		pks, pfs = []int{0, 1, 2, 3, 4}, []int{0, 1, 2}
+		pks, pfs = []int{0, 1, 2, 3, 4}, []int{0, 1, 2, 3}
 		subB, rotB = 3, 1
 	}
 	for par := 1; par <= 2; par++ {
@@ -474,6 +477,9 @@ func explorePomDoc(r *ev.Run, d *pomDoc) {
 			return
 		}
 		for t := range pomTargets {
+			if len(sub) >= 2 && !r.Thorough() && t%2 == 1 {
+				continue // quick: sets of >= 2 updates get the uniform targets 2.0 and 3.0.0-jre plus the rotated assignment
+			}
 			cs := base
 			for _, idx := range sub {
 				cs.Updates = append(cs.Updates, updSpec{Name: in.mIn.deps[idx].name(), To: pomTargets[t]})
@@ -890,11 +896,10 @@ func runPomWith(in *pomInput, cs *caseSpec, outDir string) (o outcome) {
 			free[d.VerNode] = true
 		}
 		for _, rn := range refsOf(d.Ver) {
-			for _, pp := range mIn.props {
-				if pp.Name == rn {
-					free[pp.Node] = true
-					targetProps[pp] = true
-				}
+			// only the definition that is in effect for the targeted dependency may change
+			if pp := mIn.lookup(d, rn); pp != nil {
+				free[pp.Node] = true
+				targetProps[pp] = true
 			}
 		}
 	}
